@@ -73,7 +73,7 @@ claim("C09", "model_checking",
 claim("C15", "model_checking",
       "TLC exhaustive over plans (splits x entry points x observer intervals, Driver.tla) + replay of the enumerated plans on Canonical, GrandCanonical and ForceBias against the schedule and the unsplit run",
       "Driver.tla executes a plan (sequence of run/srun/irun calls incl. zero-length ones) step by step; TLC checks for every plan and observer-interval set that the call schedule equals Expected(interval, total), the header is written once before any row, exactly the requested steps are performed and the outcome depends on the total only. The enumerated plans with TLC's expected schedules are executed on real drivers with recording observers, a default logger and a trajectory on in-memory files, and compared with the schedule and byte-for-byte with the single run of the same seed.",
-      "Trusted: TLC, in-memory text files. Bound: total <= 4 steps (quick) / 6 (thorough), <= 3 calls per plan; quick replays every 5th enumerated case.", "5 C15")
+      "Trusted: TLC, in-memory text files. Bound: total <= 4 steps (quick) / 6 (thorough), <= 3 calls per plan (+ at most one rebuild); the quick tier replays every 13th, the thorough tier every 5th enumerated case.", "5 C15")
 
 claim("C16", "fault_enumeration",
       "TLC on the observer/crash process (Files.tla) + TLC crash enumeration over operation logs recorded from the real observers (Files_Trace.tla) + byte-level crash contents through the real readers + real forked processes dying before chosen file operations",
